@@ -12,7 +12,7 @@ PROP = dict(
     rule=("Exhaustive unit: every byte string of length <= 6 (quick) / 7 (thorough) over {'/','=','-','0','7','a','k'}. Rapid unit: names from "
           "segments /k=v, /v, /, -N, digit tails, multi-byte and invalid bytes; 0-6 config entries (file and internal). For each name "
           "Parts/Base/Full and the extraction of .name, .fullname, /gomaxprocs, every /k present and requested/absent keys through "
-          "Projection.Project+Key.Get and through literal filters (match / non-match / empty) are checked, and .fullname is projected together with every plain key of the case (one expression or separate projections of one parser) and must stay the whole name; for every key a fixed value list k@(value other) parsed against the filter * must keep the result and k@(value+x other) must drop it; .fullname beside every absent sub-name key of the case must be the whole name; plain keys containing a slash are in the pools; terms are also written with unquoted (incl. non-ASCII) words; a clone that receives a longer value for its first key keeps all other keys; .name,/k over the name and a sibling whose values concatenate alike gives different keys; the conjunction of all extractions as one filter (terms joined by blank, tab, U+3000, U+2003, NBSP, U+2028 or AND) matches and, with one value altered, does not; all keys as one projection agree with the reference. Non-trivial = the name "
+          "Projection.Project+Key.Get and through literal filters (match / non-match / empty) are checked, and .fullname is projected together with every plain key of the case (one expression or separate projections of one parser) and must stay the whole name; for every key a fixed value list k@(value other) parsed against the filter * must keep the result and k@(value+x other) must drop it; .fullname beside every absent sub-name key of the case must be the whole name; plain keys containing a slash are in the pools; terms are also written with unquoted (incl. non-ASCII) words; a clone that receives a longer value for its first key keeps all other keys; .name,/k over the name and a sibling whose values concatenate alike gives different keys; the conjunction of all extractions as one filter (terms joined by blank, tab, U+3000, U+2003, NBSP, U+2028 or AND) matches and, with one value altered, does not; all keys as one projection agree with the reference; .fullname beside two or three of the name's sub-name keys is the name without exactly their parts; ProjectValues on a fresh single-key projection gives the same Key as Project. Non-trivial = the name "
           "contains '/' or a trailing -digits part. Distinct = distinct case JSON."),
     assumptions=["reference decomposition reflects the documented name structure (base, /-parts, optional trailing -N)"],
     units=[
